@@ -433,7 +433,7 @@ def check(case: dict) -> dict:
     refused = None
     neg = None
     try:
-        neg = exa.negotiate(neighbor, body, exa.Direction.OUT, sent)
+        neg = exa.negotiate(neighbor, body, exa.Direction.IN, sent)
         err = neg.validate(neighbor)
         if err is not None:
             refused = (err[0], err[1])
